@@ -167,9 +167,140 @@ def gen_server(rng, tier):
             steps.insert(rng.randrange(len(steps)), "S:change:%d:%s" % (i, hx(text[:j] + rng.choice(["x", ".", ":", "(", "\n", "'", "--"]) + text[j:])))
         if rng.random() < 0.3:
             steps.insert(rng.randrange(len(steps)), "S:save:%d" % i)
+        if rng.random() < 0.35:
+            steps.insert(rng.randrange(1, len(steps) + 1), odd_change(rng, i, text))
         steps.append("S:diags")
         out.append(" ".join(items + steps))
     return out
+
+
+def odd_change(rng, i, text):
+    """didChange content changes in every shape the protocol allows: a change WITHOUT range that still carries the
+    (optional, deprecated) rangeLength - it is a full-text change whatever rangeLength says (finding
+    C01-change-without-range) -, and range edits: the whole document deleted by range, empty ranges, ranges beyond
+    the text (rejected with a log line)"""
+    tl = text.split("\n")
+    k = rng.random()
+    if k < 0.45:
+        return "S:nchange:%d:%d:%s" % (i, rng.choice([1, 1, 2, len(text), 4294967295]), hx(rng.choice(["y", "", text, text[:len(text) // 2], "x = ="])))
+    if k < 0.7:                                      # the whole document by range (columns in characters: good enough here)
+        return "S:rchange:%d:0:0:%d:%d:%s" % (i, len(tl) - 1, len(tl[-1]), hx(rng.choice(["", "", "z = 1", "("])))
+    l = rng.randrange(len(tl) + 2); c = rng.randrange(40)
+    l2 = l + rng.choice([0, 0, 1, 5]); c2 = rng.choice([c, c + 1, 0, 200])
+    return "S:rchange:%d:%d:%d:%d:%d:%s%s" % (i, l, c, l2, c2, hx(rng.choice(["", "q", "\n", "'"])), rng.choice(["", ":0", ":3"]))
+
+
+# ---- unreadable / vanishing Lua files (seeded C01-5): names the server treats as Lua that cannot be read when the
+# analysis gets to them - dangling symbolic links (the Emacs lock file `.#main.lua`), link loops, directories NAMED x.lua,
+# files removed between the event and the read - at start-up and through watched-file events / didSave / didOpen /
+# didChange / didClose for paths that do not exist (script items X:link: X:dir: and the path-addressed steps of srv_script.go)
+LINK_TARGETS = ["user@host.12345:1700000000", "nowhere.lua", "../outside.lua", "/nonexistent/x.lua", ".", "..", "self.lua", "f0.lua", "sub", ""]
+GHOST_PATHS = ["ghost.lua", ".#f0.lua", "sub/ghost.lua", "nodir/deep/x.lua", "f0.lua~.lua", "GHOST.LUA", "g h.lua", "\u4e2d.lua", "d.lua", "d.lua/in.lua",
+               "ghost.txt", "luahelper.json", ".lua", "a.lua.lua"]
+
+
+def gen_unreadable(rng, tier):
+    n = {"quick": 160, "thorough": 6000, "search": 100}[tier]
+    out = []
+    for k in range(n):
+        nfiles = rng.choice([1, 1, 2, 3])
+        files = []
+        for f in range(nfiles):
+            toks = luagen.Gen(rng, max_depth=rng.choice([1, 2])).chunk()
+            text = luagen.render(toks, rng, "plain").decode("utf8")
+            if rng.random() < 0.4:
+                text = 'local m = require("%s")\ngtotal = (gtotal or 0) + 1\n' % rng.choice(["f0", "f1", "ghost", "sub.ghost", "d"]) + text
+            files.append(("f%d.lua" % f if f < 2 else "sub/f2.lua", text))
+        items = ["F:%s:%s" % (hx(p), hx(t)) for p, t in files]
+        paths = [p for p, _ in files]
+        m = rng.random()
+        if m < 0.6:                                   # unreadable names present at start-up
+            for _ in range(rng.choice([1, 1, 2, 3])):
+                c = rng.random()
+                p = rng.choice([".#f0.lua", "lock.lua", "sub/l.lua", "z/l.lua", "self.lua", "l0.lua", "l1.lua"])
+                if c < 0.6:
+                    items.append("X:link:%s:%s" % (hx(p), hx(rng.choice(LINK_TARGETS))))
+                elif c < 0.75:                        # a two-link loop
+                    items += ["X:link:%s:%s" % (hx("l0.lua"), hx("l1.lua")), "X:link:%s:%s" % (hx("l1.lua"), hx("l0.lua"))]
+                    p = "l0.lua"
+                else:
+                    p = rng.choice(["d.lua", "sub/d.lua", "d.lua/e.lua"])
+                    items.append("X:dir:%s" % hx(p))
+                    if rng.random() < 0.5:
+                        items.append("F:%s:%s" % (hx(p + "/in.lua"), hx("gin = 1\n")))
+                        files.append((p + "/in.lua", "gin = 1\n"))
+                paths.append(p)
+        if rng.random() < 0.2:
+            items.append("F:%s:%s" % (hx("luahelper.json"), hx(rng.choice(['{"ProjectFiles":["f0.lua"]}', '{"IgnoreFileOrFloder":["ghost"]}', "{}"]))))
+        i = rng.randrange(nfiles)
+        tl = files[i][1].split("\n")
+        steps = []
+        if rng.random() < 0.7:
+            steps.append("S:open:%d" % i)
+
+        def query():
+            l = rng.randrange(len(tl) + 1)
+            c = rng.randrange(len(tl[l]) + 2) if l < len(tl) else 0
+            op = rng.choice(["hover", "define", "refs", "complete", "highlight"])
+            return rng.choice(["S:%s:%d:%d:%d" % (op, i, l, c), "S:wssym:%s" % hx(rng.choice(["g", "f", ""])), "S:docsym:%d" % i, "S:alive"])
+        for _ in range(rng.choice([1, 2, 3, 5, 8])):
+            p = rng.choice(GHOST_PATHS + paths + paths)
+            c = rng.random()
+            if c < 0.35:
+                evs = ["%d:%s" % (rng.choice([1, 1, 2, 2, 3]), hx(p))]
+                for _ in range(rng.choice([0, 0, 1, 3])):
+                    evs.append("%d:%s" % (rng.choice([1, 2, 3]), hx(rng.choice(GHOST_PATHS + paths))))
+                steps.append("S:watch:" + ":".join(evs))
+            elif c < 0.45:                            # really removed, then announced as created / changed / deleted
+                steps += ["S:fsrm:%s" % hx(p), "S:watch:%d:%s" % (rng.choice([1, 2, 2, 3]), hx(p))]
+            elif c < 0.55:                            # removed, then saved by the editor (the save re-reads the disk)
+                steps.append("S:fsrm:%s" % hx(p))
+                steps.append(rng.choice(["S:psave:%s", "S:psave:%s:" + hx("x = 1")]) % hx(p))
+            elif c < 0.65:
+                steps.append(rng.choice(["S:psave:%s", "S:psave:%s:" + hx("gs = 1")]) % hx(p))
+            elif c < 0.75:
+                steps.append("S:popen:%s:%s" % (hx(p), hx(rng.choice(["", "go = 1", "local x = (", "return require('f0')"]))))
+            elif c < 0.8:
+                steps.append("S:pchange:%s:%s" % (hx(p), hx(rng.choice(["", "gc = 1", "gc = ="]))))
+            elif c < 0.85:
+                steps.append("S:pclose:%s" % hx(p))
+            elif c < 0.9:                             # becomes a dangling link / a directory while the server runs
+                steps += [rng.choice(["S:fslink:%s:" + hx(rng.choice(LINK_TARGETS)), "S:fsmkdir:%s"]) % hx(p), "S:watch:%d:%s" % (rng.choice([1, 2]), hx(p))]
+            elif c < 0.95:                            # written and announced (the ordinary case) ...
+                steps += ["S:fswrite:%s:%s" % (hx(p), hx("gw = 1\n")), "S:watch:1:%s" % hx(p)]
+            else:
+                steps += ["S:phover:%s:0:0" % hx(p), "S:pdocsym:%s" % hx(p)]
+            if rng.random() < 0.5:
+                steps.append(query())
+        if rng.random() < 0.25:
+            steps.insert(rng.randrange(len(steps) + 1), odd_change(rng, i, files[i][1]))
+        steps += [query(), "S:alive", "S:diags"]
+        out.append(" ".join(items + steps))
+    return out
+
+
+def shrink_script(case):
+    """smaller scripts: drop runs of non-file items (steps, links, directories), then empty the file contents"""
+    its = case.split(" ")
+    if "S:alive" not in its:                         # a script without a query step prints nothing (read as a crash)
+        its.append("S:alive")
+    last = len(its) - 1 - its[::-1].index("S:alive")
+    rem = [k for k, it in enumerate(its) if not it.startswith("F:") and k != last]
+    step = max(1, len(rem) // 2)
+    while step >= 1:
+        for a in range(0, len(rem), step):
+            drop = set(rem[a:a + step])
+            yield " ".join(it for k, it in enumerate(its) if k not in drop)
+        if step == 1:
+            break
+        step //= 2
+    for k, it in enumerate(its):
+        if it.startswith("F:") and not it.endswith(":-"):
+            yield " ".join(its[:k] + [it.rsplit(":", 1)[0] + ":-"] + its[k + 1:])
+
+
+def gen_server_all(rng, tier):
+    return gen_server(rng, tier) + gen_unreadable(rng, tier)
 
 
 def server_alive(obs):
@@ -334,7 +465,7 @@ LEGS = [
     Leg("c01.parse", gen_parse, py_spec=lambda c: "ALIVE", spec_proj=alive, shrink=shrink_bytes, canon_impl=strip_locs,
         skip_model=lambda m: m.startswith("SKIP"), nontrivial=lambda c: len(c) > 8,
         describe=lambda c: repr(bytes.fromhex(c.split(" ")[0]))[:200] if c[0] != "-" else ""),
-    Leg("c01.server", gen_server, canon_impl=server_alive, per_case_s=2.0, jobs=16,
+    Leg("c01.server", gen_server_all, canon_impl=server_alive, per_case_s=2.0, jobs=16, shrink=shrink_script,
         nontrivial=lambda c: c.count(" S:") > 5, describe=lambda c: "%d files, %d steps" % (c.count("F:"), c.count(" S:"))),
     ANN_TOTAL,
     CLASS_TOTAL,
